@@ -26,9 +26,28 @@ def prov_sort_key(repo, tier="quick"):
     ct = fl.canon(call, nid)
     g = ct[3][0] if ct[3] else None
     mp = ct[3][1] if len(ct[3]) > 1 else dict(ct[4]).get("mapping")
-    ok = False
     why = "mapping = %s" % show(mp)
-    sorted_call = None
+    attr_dict = None
+
+    def sort_source(src):
+        """('items' | 'keys', attribute dict term) when src is sorted(<attribute dict>[.items() | .keys()], ...)"""
+        sc = is_call(src, "sorted")
+        if not sc or src[2] != ("builtin", "sorted") or not sc[0]:
+            return None
+        seq = sc[0][0]
+        m = method_call(seq, "items")
+        if m and not m[2]:
+            base, mode = m[0], "items"
+        else:
+            mk = method_call(seq, "keys")
+            base, mode = (mk[0] if mk and not mk[2] else strip_wrappers(seq)), "keys"
+        c = is_call(base, "networkx.get_node_attributes")
+        if c and c[0][:2] == (graph, attr):
+            return mode, base
+        return False
+
+    ok = None        # None: form not recognised
+    mode = None
     if mp and mp[0] == "comp" and mp[1] == "dict" and len(mp[4]) == 1 and not mp[4][0][2]:
         elem = mp[4][0][1]
         k, v = mp[3][1]
@@ -36,39 +55,74 @@ def prov_sort_key(repo, tier="quick"):
         if e and e[0] == "enumitem":
             en = is_call(e[1], "enumerate")
             start = dict(e[1][4]).get("start", en[0][1] if len(en[0]) > 1 else ("const", 0))
-            src = en[0][0]
-            if v == ("sub", elem, ("const", 0)) and k == ("sub", ("sub", elem, ("const", 1)), ("const", 0)) and start == ("const", 0):
-                sc = is_call(src, "sorted")
-                if sc and src[2] == ("builtin", "sorted"):
-                    items = sc[0][0]
-                    m = method_call(items, "items")
-                    c = is_call(m[0], "networkx.get_node_attributes") if m else None
-                    if c and c[0][:2] == (graph, attr):
-                        sorted_call = (src, sc)
-                        ok = True
-                    else:
-                        why = "the sorted sequence is not get_node_attributes(graph, sort_attr).items()"
-    (obs.append(ob_ok(oid, fi, call, construct="mapping = {old: new for new, (old, value) in enumerate(sorted(attr.items(), key=...))}", instance="positions",
-                      reason="new keys are 0..n-1 in sorted order")) if ok else
-     obs.append(ob_fail(oid, fi, call, construct=why, instance="positions", reason="new node keys are not the positions of the nodes in the sorted attribute sequence")))
+            ss = sort_source(en[0][0])
+            if ss:
+                mode, attr_dict = ss
+                old = ("sub", ("sub", elem, ("const", 1)), ("const", 0)) if mode == "items" else ("sub", elem, ("const", 1))
+                ok = v == ("sub", elem, ("const", 0)) and k == old and start == ("const", 0)
+                if not ok:
+                    why = "mapping = {%s: %s for ... in enumerate(<sorted>, %s)}" % (show(k), show(v), show(start))
+            elif ss is False:
+                ok, why = False, "the sorted sequence is not get_node_attributes(graph, sort_attr)"
+    else:
+        dc = is_call(mp, "dict") if mp else None
+        zc = is_call(dc[0][0], "zip") if dc and mp[2] == ("builtin", "dict") and len(dc[0]) == 1 and not dc[1] else None
+        if zc and len(zc[0]) == 2:
+            keys_t, vals_t = zc[0]
+            ss = sort_source(keys_t)
+            if ss:
+                mode, attr_dict = ss
+                rc = is_call(vals_t, "range")
+                cc = is_call(vals_t, "count")
+                positions = False
+                if rc and vals_t[2] == ("builtin", "range"):
+                    a = rc[0]
+                    hi = a[0] if len(a) == 1 else (a[1] if len(a) == 2 and a[0] == ("const", 0) else None)
+                    ln = is_call(hi, "len") if hi else None
+                    positions = bool(ln and (ln[0][0] == keys_t or strip_wrappers(ln[0][0]) in (attr_dict, strip_wrappers(is_call(keys_t, "sorted")[0][0]))))
+                elif cc and (not cc[0] or cc[0] == (("const", 0),)) and not cc[1]:
+                    positions = True
+                ok = mode == "keys" and positions
+                if not ok:
+                    why = "mapping = dict(zip(%s, %s))" % (show(keys_t), show(vals_t))
+            elif ss is False:
+                ok, why = False, "the sorted sequence is not get_node_attributes(graph, sort_attr)"
+    if ok is None:
+        obs.append(ob_undecided(oid, fi, call, construct=why, instance="positions",
+                                reason="the relabelling map is built in a form the rule does not know (known: a dict comprehension over enumerate(sorted(...)), dict(zip(sorted(...), range(len(...)))))"))
+    else:
+        (obs.append(ob_ok(oid, fi, call, construct="mapping = {old: new for new, old in enumerate(sorted(<attribute dict>, key=...))}", instance="positions",
+                          reason="new keys are 0..n-1 in sorted order")) if ok else
+         obs.append(ob_fail(oid, fi, call, construct=why, instance="positions", reason="new node keys are not the positions of the nodes in the sorted attribute sequence")))
     # the key function: (value, key)
     okk = False
     for sub in ast.walk(fi.node):
         if isinstance(sub, ast.Call) and isinstance(sub.func, ast.Name) and sub.func.id == "sorted":
+            at = cfg.owner.get(id(sub))
             for kw in sub.keywords:
                 if kw.arg == "key" and isinstance(kw.value, ast.Lambda):
                     lam = kw.value
                     p = lam.args.args[0].arg if lam.args.args else None
                     b = lam.body
-                    if isinstance(b, ast.Tuple) and len(b.elts) >= 1 and ast.unparse(b.elts[0]) == "%s[1]" % p:
-                        okk = len(b.elts) == 1 or ast.unparse(b.elts[1]) == "%s[0]" % p
-                    if ast.unparse(b) == "%s[1]" % p:
+
+                    def is_value(x):
+                        if mode == "keys":
+                            return isinstance(x, ast.Subscript) and isinstance(x.slice, ast.Name) and x.slice.id == p and at is not None and \
+                                fl.canon(x.value, at) == attr_dict
+                        return ast.unparse(x) == "%s[1]" % p
+                    is_key = lambda x: ast.unparse(x) == (p if mode == "keys" else "%s[0]" % p)
+                    if isinstance(b, ast.Tuple) and len(b.elts) >= 1 and is_value(b.elts[0]):
+                        okk = len(b.elts) == 1 or is_key(b.elts[1])
+                    if is_value(b):
                         okk = True
-                if kw.arg == "key" and ast.unparse(kw.value) in ("operator.itemgetter(1, 0)", "itemgetter(1, 0)", "operator.itemgetter(1)", "itemgetter(1)"):
+                if kw.arg == "key" and mode != "keys" and ast.unparse(kw.value) in ("operator.itemgetter(1, 0)", "itemgetter(1, 0)", "operator.itemgetter(1)", "itemgetter(1)"):
+                    okk = True
+                if kw.arg == "key" and mode == "keys" and isinstance(kw.value, ast.Attribute) and kw.value.attr in ("get", "__getitem__") and at is not None and \
+                        fl.canon(kw.value.value, at) == attr_dict:
                     okk = True
                 if kw.arg == "reverse" and not (isinstance(kw.value, ast.Constant) and kw.value.value is False):
                     okk = False
-    (obs.append(ob_ok(oid, fi, call, construct="key=lambda item: (item[1], item[0])", instance="key", reason="sorted by membership first, old key as tie-break")) if okk else
+    (obs.append(ob_ok(oid, fi, call, construct="key=lambda item: (value, old key)", instance="key", reason="sorted by membership first, old key as tie-break")) if okk else
      obs.append(ob_fail(oid, fi, call, construct="sort key", instance="key", reason="the sort key does not start with the attribute value (membership)")))
     (obs.append(ob_ok(oid, fi, call, construct="relabel_nodes(graph, mapping)", instance="graph", reason="the argument graph is relabelled")) if g == graph else
      obs.append(ob_fail(oid, fi, call, construct="relabel_nodes(%s, ...)" % show(g), instance="graph", reason="not the argument graph is relabelled")))
@@ -201,20 +255,33 @@ def prov_relative_attr(repo, tier="quick"):
         if n.kind == "stmt" and isinstance(n.ast, ast.Assign) and isinstance(n.ast.targets[0], ast.Subscript) and \
                 isinstance(n.ast.targets[0].slice, ast.Constant) and n.ast.targets[0].slice.value == "ez_isomer_atoms":
             found = True
-            v = n.ast.value
             ok_off = False
-            if isinstance(v, ast.Tuple) and len(v.elts) == 2:
-                srcs = [ast.unparse(e) for e in v.elts]
-                # each component: old[i] + offset + 1 where enumerate start is offset + 1
-                enum = [c for c, _ in mfl.calls() if isinstance(c.func, ast.Name) and c.func.id == "enumerate"]
-                start = None
-                for c in enum:
-                    for kw in c.keywords:
-                        if kw.arg == "start":
-                            start = ast.unparse(kw.value).replace(" ", "")
-                comp_ok = all(s.replace(" ", "").endswith("+" + start) for s in srcs) if start else False
-                idx_ok = "[0]" in srcs[0] and "[1]" in srcs[1]
-                ok_off = comp_ok and idx_ok
+            from .common import linear
+            vt = mfl.canon(n.ast.value, n.id)
+            # each component: old[i] + <first new node key>, where the new keys are enumerate(template.nodes, start=<first new node key>)
+            start = None
+            for c, cn in mfl.calls():
+                if isinstance(c.func, ast.Name) and c.func.id == "enumerate":
+                    ct = mfl.canon(c, cn)
+                    st_ = dict(ct[4]).get("start", ct[3][1] if len(ct[3]) > 1 else None)
+                    if st_ is not None:
+                        start = st_
+            if vt[0] == "tuple" and len(vt[1]) == 2 and start is not None:
+                s_atoms, s_const = linear(start)
+                good = 0
+                olds = []
+                for i, comp in enumerate(vt[1]):
+                    atoms, const = linear(comp)
+                    rest = dict(atoms)
+                    for a, cnt in s_atoms:
+                        rest[a] = rest.get(a, 0) - cnt
+                    rest = {a: cnt for a, cnt in rest.items() if cnt}
+                    if const == s_const and len(rest) == 1:
+                        (a, cnt), = rest.items()
+                        if cnt == 1 and a[0] == "sub" and a[2] == ("const", i):
+                            good += 1
+                            olds.append(a[1])
+                ok_off = good == 2 and olds[0] == olds[1]
             (obs.append(ob_ok(oid, mg, n.ast, construct="ez_isomer_atoms shifted by the node-key offset", instance="merge-offset",
                               reason="stereo node references of a fragment copy point at the copy's own atoms")) if ok_off else
              obs.append(ob_fail(oid, mg, n.ast, construct=ast.unparse(n.ast), instance="merge-offset",
@@ -290,7 +357,10 @@ def prov_copy_complete(repo, tier="quick"):
             c = is_call(it, "enumerate")
             inner = strip_wrappers(c[0][0]) if c else it
             mm = method_call(inner, "nodes")
-            if inner in (("attr", tmpl, "nodes"), tmpl) or (mm and mm[0] == tmpl and not mm[2] and not mm[3]):
+            mi = method_call(inner, "items")
+            if inner in (("attr", tmpl, "nodes"), tmpl) or (mm and mm[0] == tmpl and not mm[2] and mm[3] in ({}, {"data": ("const", True)}, {"data": ("const", False)})) or \
+                    (mm and mm[0] == tmpl and mm[2] in ((("const", True),), (("const", False),)) and not mm[3]) or \
+                    (mi and not mi[2] and mi[0] == ("attr", tmpl, "nodes")):
                 ok_range = True
         gs = [g for g in guards_of(fi, nid) if g[2] != (loops[0].id if loops else None)]
         ok_range = ok_range and not gs and m[0] == src
@@ -636,6 +706,19 @@ def trip_multiplier(repo, tier="quick"):
         count = c[0][0]
     elif c and len(c[0]) == 2 and c[0][0] == ("const", 0):
         count = c[0][1]
+    elif c and len(c[0]) == 2:
+        # range(a, a + n) runs n times
+        from .common import linear
+        (la, ca), (lb, cb) = linear(c[0][0]), linear(c[0][1])
+        diff = dict(lb)
+        for a_, k_ in la:
+            diff[a_] = diff.get(a_, 0) - k_
+        diff = {a_: k_ for a_, k_ in diff.items() if k_}
+        if cb == ca and len(diff) == 1 and list(diff.values()) == [1]:
+            want = list(diff)[0]
+            for x in walk_term(c[0][1]):
+                if isinstance(x, tuple) and x and x[0] == "var" and strip_sites(x) == want:
+                    count = x
     ok = False
     why = "node loop iterates %s" % show(it)
     nname = None
@@ -845,7 +928,7 @@ def tt_relative_dispatch(repo, tier="quick"):
     """C15: the remapping of a node-referencing attribute in sort_nodes_by_attr, executed abstractly for the value shapes that
     occur (tuple / list of node keys, a single integer key, a single string key): sequences are translated element by
     element, scalars as a whole, whatever the declared depth flag says."""
-    from ..absint import Evaluator, Unsupported, Raised
+    from ..absint import Evaluator, Unsupported, Raised, _Continue
     fi = repo.function("graph_utils:sort_nodes_by_attr")
     fl, cfg = fi.flow, fi.cfg
     oid = "TT.relative-dispatch"
@@ -866,11 +949,37 @@ def tt_relative_dispatch(repo, tier="quick"):
             c = is_call(m[0], "networkx.get_node_attributes") if m else None
             if c and c[0] and c[0][0] in (R, ("param", fi.positional_params[0])):
                 loop = n
+    node_form = False
+    if loop is None:
+        # the same entries, walked as (node, attribute dict) pairs of the relabelled graph
+        for n in cfg.nodes:
+            if n.kind == "for":
+                it = strip_wrappers(fl.canon(n.ast.iter, n.id))
+                m = method_call(it, "items")
+                base = m[0] if m and not m[2] else None
+                if base is None and it[0] == "call" and it[2][0] == "attr" and it[2][2] == "nodes" and dict(it[4]).get("data", it[3][0] if it[3] else None) == ("const", True):
+                    base = it[2]
+                if base is not None and base[0] == "attr" and base[2] == "nodes" and base[1] in (R, ("param", fi.positional_params[0])):
+                    loop = n
+                    node_form = True
     need(loop is not None, "anchor vanished: no loop over the entries of a relative attribute", fi)
     tgt = loop.ast.target
     need(isinstance(tgt, ast.Tuple) and len(tgt.elts) == 2 and all(isinstance(x, ast.Name) for x in tgt.elts),
          "the entry loop does not unpack (key, values)", fi)
     kname, vname = tgt.elts[0].id, tgt.elts[1].id
+    attr_names = set()
+    if node_form:
+        # names used as key into the attribute dict stand for the attribute's name
+        for sub in ast.walk(loop.ast):
+            if isinstance(sub, ast.Subscript) and isinstance(sub.value, ast.Name) and sub.value.id == vname and isinstance(sub.slice, ast.Name):
+                attr_names.add(sub.slice.id)
+            if isinstance(sub, ast.Compare) and len(sub.ops) == 1 and isinstance(sub.ops[0], (ast.In, ast.NotIn)) and isinstance(sub.left, ast.Name) and \
+                    isinstance(sub.comparators[0], ast.Name) and sub.comparators[0].id == vname:
+                attr_names.add(sub.left.id)
+            if isinstance(sub, ast.Call) and isinstance(sub.func, ast.Attribute) and sub.func.attr == "get" and isinstance(sub.func.value, ast.Name) and \
+                    sub.func.value.id == vname and sub.args and isinstance(sub.args[0], ast.Name):
+                attr_names.add(sub.args[0].id)
+        need(attr_names, "the node loop does not look the relative attribute up in the node's attribute dict", fi)
     store = None
     for sub in ast.walk(loop.ast):
         if isinstance(sub, ast.Assign) and isinstance(sub.targets[0], ast.Subscript) and isinstance(sub.targets[0].value, ast.Name) \
@@ -880,7 +989,8 @@ def tt_relative_dispatch(repo, tier="quick"):
     # free local names of the loop body that are bound outside it (the declared depth flag): both truth values
     bound_outside = set()
     for sub in ast.walk(loop.ast):
-        if isinstance(sub, ast.Name) and isinstance(sub.ctx, ast.Load) and sub.id in fl.locals and sub.id not in (mapname, store, kname, vname):
+        if isinstance(sub, ast.Name) and isinstance(sub.ctx, ast.Load) and sub.id in fl.locals and sub.id not in (mapname, store, kname, vname) and \
+                sub.id not in attr_names:
             bound_outside.add(sub.id)
     assigned_inside = {t.id for sub in ast.walk(loop.ast) for t in ast.walk(sub) if isinstance(t, ast.Name) and isinstance(t.ctx, ast.Store)}
     flags = sorted(bound_outside)
@@ -892,12 +1002,18 @@ def tt_relative_dispatch(repo, tier="quick"):
     import itertools
     for (label, value, want), combo in itertools.product(scenarios, itertools.product((True, False), repeat=len(flags))):
         env = {mapname: dict(mapping), store: {}, kname: 12, vname: value}
+        if node_form:
+            env[vname] = {"<relative attribute>": value, "element": "C"}
+            env.update({a: "<relative attribute>" for a in attr_names})
         env.update(dict(zip(flags, combo)))
         from .truth import helper_inliner
         ev = Evaluator(call_hook=helper_inliner(fi))
         n += 1
         try:
-            ev.block(loop.ast.body, env)
+            try:
+                ev.block(loop.ast.body, env)
+            except _Continue:
+                pass
             got = env[store].get(12, "<nothing stored>")
         except Raised as r:
             got = "raises " + r.exc_name
